@@ -210,7 +210,7 @@ PlainDoc == {[xml |-> "wf", envelope |-> "valid"]}
 
 Mk(via, t, p, f, c, d) ==
   [via |-> via, method |-> "POST", target |-> t, path |-> p, framing |-> f, coding |-> c,
-   xml |-> d.xml, envelope |-> d.envelope]
+   xml |-> d.xml, envelope |-> d.envelope, lenient |-> FALSE]
 
 HandlerRequests ==
   UNION {
@@ -233,12 +233,18 @@ DoPostRequests ==
 
 GetRequests ==
   {[via |-> "handler", method |-> "GET", target |-> t, path |-> p, framing |-> "na", coding |-> "na",
-    xml |-> "na", envelope |-> "na"] : t \in GetTargets, p \in PrefixPaths \cup DeepPaths}
+    xml |-> "na", envelope |-> "na", lenient |-> FALSE] : t \in GetTargets, p \in PrefixPaths \cup DeepPaths}
+
+\* the same endpoints created with schema validation switched off (validate=False, a legal constructor option): whatever
+\* such an endpoint does with a hostile document, it expands nothing, fetches nothing and a refusal changes nothing
+LenientRequests ==
+  {[Mk("handler", t, "valid", "cl_exact", "none", [xml |-> x, envelope |-> "valid"]) EXCEPT !.lenient = TRUE]
+     : t \in PostTargets, x \in XmlDoctype \cup {"wf"}}
 
 Requests == CASE Part = "trace" -> {}      \* PipelineTrace: the requests come from the recorded file
               [] Part = "dopost" -> DoPostRequests
-              [] Part = "handler" -> HandlerRequests \cup GetRequests
-              [] OTHER -> HandlerRequests \cup DoPostRequests \cup GetRequests
+              [] Part = "handler" -> HandlerRequests \cup GetRequests \cup LenientRequests
+              [] OTHER -> HandlerRequests \cup DoPostRequests \cup GetRequests \cup LenientRequests
 
 ---------------------------------------------------------------------------
 (* the state machine *)
